@@ -596,6 +596,9 @@ func shrinkRecipe(rc Recipe, f Failure) Recipe {
 	if rc.File != "" {
 		return shrinkTableFile(rc, still)
 	}
+	if rc.Cfg != nil && strings.HasPrefix(rc.Kind, "vcfg") {
+		return shrinkVCfg(rc, still)
+	}
 	if rc.Cfg != nil {
 		return shrinkCfg(rc, still)
 	}
